@@ -304,6 +304,26 @@ class World(object):
             return tuple(self.view(side, x) for x in c)
         return c
 
+    def foreign_mentions(self):
+        """objects that code of the other side names in a constant: those must have been handed over before the
+        computation starts (the model's initial tables hold every object; holding more is harmless)"""
+        need = set()
+
+        def visit(side, c):
+            if isinstance(c, Ref):
+                if c.side != side:
+                    need.add((c.side, c.k))
+            elif type(c) is tuple:
+                for x in c:
+                    visit(side, x)
+        for f in self.prog["fns"]:
+            for c in prog_consts(dict(fns=[f], entry=dict(args=[], kwargs=[]))):
+                visit(f["owner"], c)
+        e = self.prog["entry"]
+        for c in [e["callee"]] + list(e["args"]) + [v for _n, v in e["kwargs"]]:
+            visit("A", c)
+        return need
+
     def ref_of(self, obj):
         """the (side, k) an object or proxy refers to"""
         if issubclass(type(obj), self.BaseNetref):
@@ -465,13 +485,19 @@ def run_dist(world):
         def exposed_put(self, k, obj):
             world.proxy[("B", ("A", k))] = obj
 
+        def exposed_ping_(self):
+            return "pong"
+
     net = Net()
     info = {}
     with net.installed():
         ca, cb = net.connect_pair(None, SideB())
         try:
             root = ca.root
+            need = world.foreign_mentions()
             for (side, k) in sorted(world.objs):
+                if (side, k) not in need:
+                    continue
                 if side == "B":
                     world.proxy[("A", ("B", k))] = root.get(k)
                 else:
@@ -479,8 +505,7 @@ def run_dist(world):
             frames0 = len(net.frames)
             out, raw = show_outcome(world, world.entry)
             info["frames"] = len(net.frames) - frames0
-            info["usable"] = (ca.root.get(sorted(k for (s, k) in world.objs if s == "B")[0]) is not None) \
-                if any(s == "B" for (s, _k) in world.objs) and not ca.closed else not ca.closed
+            info["usable"] = not ca.closed and ca.root.ping_() == "pong"
         finally:
             world.proxy = {}
             net.shutdown([ca])
@@ -535,133 +560,198 @@ def outside_domain(p):
 
 
 # ---------------------------------------------------------------------------------------------- generator
+_POOL = {}
+
+
+def value_pool(seed=12345):
+    """values from the C04 generator, sorted into small / flat (no nesting) / big / over the str() digit limit"""
+    if not _POOL:
+        r = Rng(seed).fork("c01-values")
+        small, flat, big, over = [], [], [], []
+        for k in range(2500):
+            v = c04.gen_value(r, 2 if k % 3 else 1)
+            if c04.has_overlimit_int(v):
+                if len(over) < 12:
+                    over.append(v)
+                continue
+            n = len(valtext.to_text(v))
+            if n <= 160:
+                small.append(v)
+                if c04.depth_of(v) == 0:
+                    flat.append(v)
+            elif len(big) < 150 and n <= 30000:
+                big.append(v)
+        if not over:
+            over.append(10 ** (c04.LIMIT or 5000))
+        _POOL.update(small=small, flat=flat, big=big, over=over)
+    return _POOL
+
+
 class ProgGen(object):
+    """random call trees: every function is on A or B, calls new functions (depth <= max_depth), functions generated
+    earlier (shared sub-trees) or a callable it was handed; ~30 % of the functions raise; try/except at random levels"""
+
+    RAISED = ["ValueError", "KeyError", "RuntimeError", "ValueError", "KeyError", "IndexError", "TypeError",
+              "ZeroDivisionError", "StopIteration", "AssertionError", "NameError"]
+
     def __init__(self, r, max_depth=8):
         self.r = r
         self.max_depth = max_depth
         self.fns = []
+        self.sigs = {}
         self.done = []          # completed function ids
         self.data = [r.choice("AB") for _ in range(r.below(4))]
-        self.budget = 18 + r.below(25)   # functions
+        self.budget = 2 + r.below(14)    # functions
         self.overlimit = r.chance(1, 60)
+        self.n_fns_placeholder = 1000    # data object keys are renumbered after the functions are known
 
     def value(self, depth=2):
+        """an immutable value of every shape the C04 generator makes (drawn from a pool built once per run); mostly
+        small (the same constant travels many times), now and then a big one"""
         r = self.r
-        for _ in range(20):
-            v = c04.gen_value(r, depth)
-            if self.overlimit or not c04.has_overlimit_int(v):
-                return v
-        return 0
+        pool = value_pool()
+        if self.overlimit and r.chance(1, 3):
+            return r.choice(pool["over"])
+        if r.chance(1, 60) and pool["big"]:
+            return r.choice(pool["big"])
+        return r.choice(pool["small" if depth > 1 else "flat"])
 
-    def obj_ref(self, callable_only=False):
+    def fn_ref(self, k):
+        return Ref(self.fns[k]["owner"], k)
+
+    def obj_ref(self):
         r = self.r
-        if self.done and (callable_only or r.chance(1, 2) or not self.data):
-            k = r.choice(self.done)
-            return Ref(self.fns[k]["owner"], k)
-        if self.data and not callable_only:
+        if self.done and (r.chance(1, 2) or not self.data):
+            return self.fn_ref(r.choice(self.done))
+        if self.data:
             i = r.below(len(self.data))
             return Ref(self.data[i], self.n_fns_placeholder + i)
         return None
 
     def expr(self, scope, depth=2):
         r = self.r
-        k = r.below(100)
+        k = r.below(1000)
         avail = [("v", x) for x in scope["vars"]] + [("a", i) for i in range(scope["npos"])] + [("k", n) for n in scope["kws"]]
-        if k < 30:
+        if k < 300:
             return ("c", self.value())
-        if k < 45:
+        if k < 450:
             ref = self.obj_ref()
             if ref is not None:
                 return ("c", ref)
-        if k < 50:
+        if k < 500:
             ref = self.obj_ref()
             return ("c", (self.value(1), ref) if ref is not None else (self.value(1),))
-        if k < 85 and avail:
-            return r.choice(avail)
-        if k < 88:
+        if k < 868:
+            return r.choice(avail) if avail else ("c", self.value())
+        if k < 870:
             return r.choice([("v", 90 + r.below(3)), ("a", scope["npos"] + r.below(2)), ("k", "nope")])
         if depth > 0:
             return ("t", [self.expr(scope, depth - 1) for _ in range(r.below(4))])
         return ("c", self.value(1))
 
-    def call_stmt(self, owner, scope, depth):
+    def fresh_sig(self):
         r = self.r
-        nargs = r.below(4)
         kws = []
         for _ in range(r.below(3)):
             n = r.choice(KW_NAMES) if r.chance(4, 5) else c04.gen_text(r, r.below(4))
             if n not in kws:
                 kws.append(n)
-        args = [self.expr(scope) for _ in range(nargs)]
-        kwargs = [(n, self.expr(scope)) for n in kws]
-        # sometimes hand a callable over, positionally or by keyword, so that the callee can call back
-        cb_pos, cb_kw = None, None
-        if self.done and r.chance(1, 3):
-            ref = self.obj_ref(callable_only=True)
-            if args and r.chance(2, 3):
-                cb_pos = r.below(len(args))
-                args[cb_pos] = ("c", ref)
-            elif kwargs:
-                cb_kw = kwargs[r.below(len(kwargs))][0]
-                kwargs = [(n, ("c", ref) if n == cb_kw else e) for n, e in kwargs]
-        x = r.below(6)
-        c = r.below(100)
-        callee = None
-        if c < 55 and depth < self.max_depth and self.budget > 0:
-            sig = dict(npos=nargs, kws=list(kws), cb_pos=cb_pos, cb_kw=cb_kw)
-            fid = self.new_fn(depth + 1, sig)
-            callee = ("c", Ref(self.fns[fid]["owner"], fid))
-        elif c < 80 and self.done:
-            k = r.choice(self.done)
-            callee = ("c", Ref(self.fns[k]["owner"], k))
-        elif c < 90:
-            cands = []
-            if scope.get("cb_pos") is not None:
-                cands.append(("a", scope["cb_pos"]))
-            if scope.get("cb_kw") is not None:
-                cands.append(("k", scope["cb_kw"]))
-            cands += [("v", v) for v in scope["vars"]][:2]
-            if cands:
-                callee = r.choice(cands)
-        if callee is None:
-            if self.done and r.chance(9, 10):
-                k = r.choice(self.done)
-                callee = ("c", Ref(self.fns[k]["owner"], k))
-            else:
-                callee = self.expr(scope)      # most likely not callable: TypeError on both sides
-        return ("call", x, callee, args, kwargs)
+        return dict(npos=r.below(4), kws=kws, cb=None)
 
-    def block(self, owner, scope, depth, top, nest=0):
+    def args_for(self, sig, scope):
+        """argument expressions matching a callee's signature; where it expects a callable, one is handed over"""
+        r = self.r
+        args = [self.expr(scope) for _ in range(sig["npos"])]
+        kwargs = [(n, self.expr(scope)) for n in sig["kws"]]
+        if sig.get("cb") is not None:
+            where, g = sig["cb"]
+            cands = [k for k in self.done if self.sigs[k]["cb"] is None and self.sigs[k]["npos"] == self.sigs[g]["npos"]
+                     and self.sigs[k]["kws"] == self.sigs[g]["kws"]] or [g]
+            e = ("c", self.fn_ref(r.choice(cands)))
+            if where[0] == "a":
+                args[where[1]] = e
+            else:
+                kwargs = [(n, e if n == where[1] else x) for n, x in kwargs]
+        if r.chance(1, 300):
+            args = args[:-1] if args and r.chance(1, 2) else args + [self.expr(scope)]
+        return args, kwargs
+
+    def call_stmt(self, owner, scope, depth):
+        r = self.r
+        x = r.below(6)
+        c = r.below(97) if not r.chance(1, 150) else 99
+        can_new = depth < self.max_depth and self.budget > 0
+        if not can_new and not self.done and scope.get("cb") is None:
+            return None
+        if can_new and (c < 62 or (depth < 3 and c < 85) or not self.done):
+            sig = self.fresh_sig()
+            simple = [k for k in self.done if self.sigs[k]["cb"] is None]
+            if simple and r.chance(1, 3) and (sig["npos"] or sig["kws"]):
+                g = r.choice(simple)
+                where = ("a", r.below(sig["npos"])) if sig["npos"] and (r.chance(2, 3) or not sig["kws"]) else ("k", r.choice(sig["kws"]))
+                sig["cb"] = (where, g)
+            fid = self.new_fn(depth + 1, sig)
+            args, kwargs = self.args_for(sig, scope)
+            return ("call", x, ("c", self.fn_ref(fid)), args, kwargs)
+        if self.done and c < 90:
+            k = r.choice(self.done)
+            args, kwargs = self.args_for(self.sigs[k], scope)
+            return ("call", x, ("c", self.fn_ref(k)), args, kwargs)
+        if scope.get("cb") is not None and c < 97:
+            where, g = scope["cb"]
+            args, kwargs = self.args_for(self.sigs[g], scope)
+            return ("call", x, (where[0], where[1]), args, kwargs)
+        if self.done and c < 98:
+            k = r.choice(self.done)
+            args, kwargs = self.args_for(self.sigs[k], scope)
+            return ("call", x, ("c", self.fn_ref(k)), args, kwargs)
+        # most likely not callable: TypeError on both sides
+        return ("call", x, self.expr(scope), [self.expr(scope) for _ in range(r.below(3))], [])
+
+    def raise_stmt(self, scope):
+        r = self.r
+        return ("raise", r.choice(self.RAISED), [self.expr(scope) for _ in range(r.below(3))])
+
+    def block(self, owner, scope, depth, top, nest=0, raises=False):
         r = self.r
         scope = dict(scope, vars=list(scope["vars"]))
         out = []
         n = 1 + r.below(3 if nest else 4)
-        for _ in range(n):
+        raise_at = r.below(n + 1) if raises else None
+        for i in range(n):
+            if raise_at == i:
+                out.append(self.raise_stmt(scope))
+                return out
             k = r.below(100)
-            if k < 55:
+            if k < 66 or nest >= 2:
                 s = self.call_stmt(owner, scope, depth)
+                if s is None:
+                    continue
                 out.append(s)
                 if s[1] not in scope["vars"]:
                     scope["vars"].append(s[1])
-            elif k < 72 and nest < 2:
-                body = self.block(owner, scope, depth, False, nest + 1)
-                pat = None if r.chance(2, 5) else r.choice(CLASSES).__name__
-                handler = self.block(owner, scope, depth, False, nest + 1)
+            elif k < 92:
+                inner = raises and r.chance(1, 2)
+                if inner:
+                    raise_at = None
+                    raises = False
+                body = self.block(owner, scope, depth, False, nest + 1, raises=inner)
+                pat = None if r.chance(1, 2) else r.choice(self.RAISED)
+                handler = self.block(owner, scope, depth, False, nest + 1, raises=r.chance(1, 12))
                 out.append(("try", body, pat, handler))
-            elif k < 86:
-                out.append(("raise", r.choice(CLASSES).__name__, [self.expr(scope) for _ in range(r.below(3))]))
-                break
             else:
                 out.append(("ret", self.expr(scope, 3)))
-                break
-        if top and out[-1][0] not in ("ret", "raise") and r.chance(3, 4):
-            if r.chance(1, 5):
-                out.append(("raise", r.choice(CLASSES).__name__, [self.expr(scope) for _ in range(r.below(3))]))
-            else:
-                # return what was received and computed, so that arguments are observable at the root
-                parts = [("a", i) for i in range(scope["npos"])] + [("k", n) for n in scope["kws"]] + [("v", v) for v in scope["vars"]]
-                r.shuffle(parts)
-                out.append(("ret", ("t", parts[:1 + r.below(4)]) if parts and r.chance(4, 5) else self.expr(scope, 3)))
+                return out
+        if raise_at is not None:
+            out.append(self.raise_stmt(scope))
+            return out
+        if top and r.chance(5, 6):
+            # return what was received and computed, so that arguments are observable at the root
+            parts = [("a", i) for i in range(scope["npos"])] + [("k", n) for n in scope["kws"]] + [("v", v) for v in scope["vars"]]
+            r.shuffle(parts)
+            out.append(("ret", ("t", parts[:1 + r.below(4)]) if parts and r.chance(4, 5) else self.expr(scope, 3)))
+        elif not top and r.chance(1, 8):
+            out.append(("ret", self.expr(scope, 2)))
         return out
 
     def new_fn(self, depth, sig):
@@ -669,24 +759,19 @@ class ProgGen(object):
         fid = len(self.fns)
         owner = self.r.choice("AB")
         self.fns.append(dict(owner=owner, body=None))
-        scope = dict(vars=[], npos=sig["npos"], kws=sig["kws"], cb_pos=sig.get("cb_pos"), cb_kw=sig.get("cb_kw"))
-        self.fns[fid]["body"] = self.block(owner, scope, depth, True)
+        self.sigs[fid] = sig
+        scope = dict(vars=[], npos=sig["npos"], kws=sig["kws"], cb=sig.get("cb"))
+        self.fns[fid]["body"] = self.block(owner, scope, depth, True, raises=self.r.chance(3, 10))
         self.done.append(fid)
         return fid
 
     def program(self):
         r = self.r
-        self.n_fns_placeholder = 1000      # data object keys are renumbered after the functions are known
-        nargs = r.below(3)
-        kws = []
-        for _ in range(r.below(3)):
-            n = r.choice(KW_NAMES)
-            if n not in kws:
-                kws.append(n)
-        self.new_fn(0, dict(npos=nargs, kws=kws))
+        sig = self.fresh_sig()
+        self.new_fn(0, sig)
         n = len(self.fns)
         prog = dict(fns=self.fns, data=self.data, entry=None)
-        renumber(prog, 1000, n)
+        renumber(prog, self.n_fns_placeholder, n)
 
         def entry_val():
             k = r.below(10)
@@ -696,11 +781,10 @@ class ProgGen(object):
                 i = r.below(len(self.data))
                 return Ref(self.data[i], n + i)
             if k < 9:
-                j = r.choice(self.done)
-                return Ref(self.fns[j]["owner"], j)
-            return (self.value(1), Ref(self.fns[0]["owner"], 0))
-        prog["entry"] = dict(callee=Ref(self.fns[0]["owner"], 0), args=[entry_val() for _ in range(nargs)],
-                             kwargs=[(kn, entry_val()) for kn in kws])
+                return self.fn_ref(r.choice(self.done))
+            return (self.value(1), self.fn_ref(0))
+        prog["entry"] = dict(callee=self.fn_ref(0), args=[entry_val() for _ in range(sig["npos"])],
+                             kwargs=[(kn, entry_val()) for kn in sig["kws"]])
         return prog
 
 
@@ -929,6 +1013,8 @@ def correspondence(ctx):
         msg = oracle_case(prog, res)
         if msg:
             c.disagreements.append(dict(case=prog_to_json(prog), mode="oracle", impl=msg[:600], model="(distributed == one process)"))
+        if not res.info.get("usable") and not od:
+            c.disagreements.append(dict(case=prog_to_json(prog), mode="dist", impl="the connection is not usable after the computation", model="-"))
         if res.info.get("thread_exceptions") and not od:
             c.disagreements.append(dict(case=prog_to_json(prog), mode="dist", impl="serving thread died: %r" % (res.info["thread_exceptions"][:1],), model="-"))
         st = res.stats
